@@ -25,6 +25,9 @@ type outcomeSpec struct {
 	ExcValue *idl.V            `json:"exc_value,omitempty"`
 	AppType  int32             `json:"app_type,omitempty"`
 	RespHdr  map[string]string `json:"resp_headers,omitempty"`
+	// ExcID is the field id the IDL gives the raised exception in the method's throws list: the id
+	// it must travel under in the result struct.
+	ExcID int `json:"-"`
 	// Expect is what the caller must observe when it is not Value itself (a handler that returns the
 	// nil slice / map / byte slice: the caller observes the empty collection and no error).
 	Expect *idl.V `json:"-"`
@@ -86,6 +89,7 @@ type callResult struct {
 	CallerOpID    string            `json:"caller_opid"`
 	CallerCid     string            `json:"caller_cid"`
 	ReplyFrames   []string          `json:"reply_frames"`
+	Replies       []*replyDesc      `json:"replies"`
 	RequestFrames int               `json:"request_frames"`
 	Trace         []string          `json:"trace"`
 	CallbackErrs  []string          `json:"callback_errs"`
@@ -208,7 +212,7 @@ func runC03(res *result) {
 					for _, t := range m.Throws {
 						rt := r.Resolve(mfile, t.Type)
 						st, sf := r.FindStruct(rt.Struct)
-						outcomes = append(outcomes, &outcomeSpec{Kind: "exception", ExcType: rt.Struct, ExcValue: r.StructValues(st, sf, 1)[0]})
+						outcomes = append(outcomes, &outcomeSpec{Kind: "exception", ExcType: rt.Struct, ExcValue: r.StructValues(st, sf, 1)[0], ExcID: t.ID})
 					}
 					outcomes = append(outcomes, &outcomeSpec{Kind: "error"}, &outcomeSpec{Kind: "appexc", AppType: 4})
 				}
@@ -286,6 +290,16 @@ func runC03(res *result) {
 						bad, kind = fmt.Sprintf("handler raised %s, caller observed %q (%s)", oc.ExcType, cr.ErrKind, cr.ErrMsg), "declared-exception-lost"
 					} else if canonOf(cr.ErrValue) != canonOf(oc.ExcValue) {
 						bad, kind = fmt.Sprintf("exception fields differ: %s vs %s", canonOf(cr.ErrValue), canonOf(oc.ExcValue)), "exception-fields-differ"
+					} else if oc.ExcID != 0 && len(cr.Replies) == 1 && cr.Replies[0].ParseErr == "" && cr.Replies[0].Tree != nil {
+						// on the wire the exception is the one field of the result struct, under the id
+						// the throws list gives it (what a peer generated by another compiler expects)
+						var ids []string
+						for id := range cr.Replies[0].Tree.F {
+							ids = append(ids, id)
+						}
+						if len(ids) != 1 || ids[0] != fmt.Sprint(oc.ExcID) {
+							bad, kind = fmt.Sprintf("the reply's result struct carries field ids %v, the throws list declares %s under id %d", ids, oc.ExcType, oc.ExcID), "exception-field-id"
+						}
 					}
 				case "error":
 					if cr.ErrKind != "app:6" {
